@@ -3,7 +3,7 @@ from props import gxcommon as G
 
 
 def run(tier, seed):
-    res = G.gx(G.EXPR_METHODS, ["accept", "term"], "C02/gx", tier)
+    res = G.gx(G.EXPR_METHODS, ["accept", "term", "concrete"], "C02/gx", tier)
     from props import tables
     res.add(tables.c02_tables())
     try:
